@@ -51,12 +51,7 @@ pub fn run(ws: &Ws, seed: u64) -> Result<i32, String> {
                     }
                     Class::Error => {
                         let all_codes = p.codes.iter().all(|c| errors.iter().any(|d| d.code == *c));
-                        if p.order_sensitive_known {
-                            // accepted or rejected depending on the order: either is "as labelled"
-                            r.exit == Exit::Code(0) && diags.is_empty() || (all_codes && r.exit != Exit::Code(0))
-                        } else {
-                            !errors.is_empty() && all_codes && r.exit != Exit::Code(0)
-                        }
+                        !errors.is_empty() && all_codes && r.exit != Exit::Code(0)
                     }
                 };
                 if !ok || r.crashed().is_some() {
